@@ -107,7 +107,7 @@ func genTxnSchema(rng *rand.Rand, withRefs bool) TxnSchema {
 				switch rng.Intn(5) {
 				case 0:
 					min := 0
-					if rt == "weak" && rng.Intn(3) == 0 {
+					if rt == "weak" && rng.Intn(2) == 0 {
 						min = 1
 					}
 					t.Cols = append(t.Cols, ColSpec{Name: cn, Type: ColType{Kind: "set", Key: "uuid", Min: min, Max: -1}, RefTable: target, RefType: rt})
@@ -418,6 +418,15 @@ func mustJSON(v interface{}) string {
 type shadow struct {
 	rows map[string]map[string]Row // table -> uuid -> row (from the last dump)
 	next int
+	// a claim to make in the next transaction: the values a row holds in one schema index of its table,
+	// after the previous transaction changed its value in another index of the same table
+	pending *pendingClaim
+}
+
+type pendingClaim struct {
+	table string
+	uuid  string
+	index []string
 }
 
 func newShadow() *shadow { return &shadow{rows: map[string]map[string]Row{}, next: 1} }
@@ -623,7 +632,22 @@ func genTxn(rng *rand.Rand, ts TxnSchema, sh *shadow, nops int) TxnJ {
 	var tail []OperationJ
 	// index traffic: values of an index moving between existing rows inside one transaction, and
 	// inserts that claim the index values of an existing row (must be rejected unless that row goes)
-	switch rng.Intn(15) {
+	if sh.pending != nil {
+		if op, ok := g.genPendingClaim(); ok {
+			tail = append(tail, op)
+		}
+		sh.pending = nil
+	}
+	switch rng.Intn(26) {
+	case 17, 18:
+		// a row changes its value in one schema index of a table that has several; the next transaction
+		// claims the value it still holds in another one (which must be refused)
+		t.Ops = append(t.Ops, g.genOneIndexUpdate()...)
+	case 19, 20:
+		// waits whose selected rows agree on the compared columns, and whose expected rows repeat
+		if op, ok := g.genWaitDup(); ok {
+			t.Ops = append(t.Ops, op)
+		}
 	case 0:
 		t.Ops = append(t.Ops, g.genIndexMove()...)
 	case 1:
@@ -663,6 +687,10 @@ func genTxn(rng *rand.Rand, ts TxnSchema, sh *shadow, nops int) TxnJ {
 		// is pointed at a new row carrying the same index value, so the old row is garbage collected and
 		// the duplicate exists only inside the transaction
 		t.Ops = append(t.Ops, g.genGcHandover()...)
+	case 15, 16:
+		// every row a weak-reference column with a minimum points to is deleted in one transaction (each
+		// deletion alone would leave enough elements, together they do not)
+		t.Ops = append(t.Ops, g.genWeakMinDrop()...)
 	case 2, 3:
 		// a column of an existing row goes back to its default value (by update, or by deleting
 		// every element / key): the encodings that leave default values out must still say so
@@ -1068,4 +1096,141 @@ func (g *txnGen) genGcHandover() []OperationJ {
 		}
 	}
 	return nil
+}
+
+// genWeakMinDrop: see genTxn
+func (g *txnGen) genWeakMinDrop() []OperationJ {
+	for _, t := range g.ts.Spec.Tables {
+		for _, c := range t.Cols {
+			if !(c.RefTable != "" && c.RefType == "weak" && c.Type.Kind == "set") {
+				continue
+			}
+			for _, u := range g.sh.uuids(t.Name) {
+				v := g.sh.rows[t.Name][u][c.Name]
+				if v == nil || len(v.S) < 2 || (c.Type.Min < 1 && g.rng.Intn(3) != 0) {
+					continue
+				}
+				var ops []OperationJ
+				n := len(v.S)
+				if c.Type.Min < 1 || g.rng.Intn(3) == 0 {
+					n = 1 + g.rng.Intn(len(v.S)) // not all of them: the pruning must go through
+				}
+				for _, a := range v.S[:n] {
+					if a.S != u { // not the row itself
+						ops = append(ops, OperationJ{Op: "delete", Table: c.RefTable, Where: byUUID(a.S)})
+					}
+				}
+				if len(ops) > 0 {
+					return ops
+				}
+			}
+		}
+	}
+	return nil
+}
+
+// genOneIndexUpdate: see genTxn
+func (g *txnGen) genOneIndexUpdate() []OperationJ {
+	for _, t := range g.ts.Spec.Tables {
+		if len(t.Indexes) < 2 || len(g.sh.rows[t.Name]) == 0 {
+			continue
+		}
+		us := g.sh.uuids(t.Name)
+		u := us[g.rng.Intn(len(us))]
+		k := g.rng.Intn(len(t.Indexes))
+		row := Row{}
+		for _, c := range t.Indexes[k] {
+			cs := t.Col(c)
+			if cs.Type.Key == "string" {
+				row[c] = VA(AS(fmt.Sprintf("x%d", g.rng.Intn(1000)))) // a fresh value
+			} else {
+				row[c] = VA(AI(int64(100 + g.rng.Intn(1000))))
+			}
+		}
+		// only columns of index k change: the other index keeps its value
+		other := t.Indexes[(k+1)%len(t.Indexes)]
+		for _, c := range other {
+			if _, clash := row[c]; clash {
+				return nil // overlapping indexes: not this scenario
+			}
+		}
+		g.sh.pending = &pendingClaim{t.Name, u, other}
+		return []OperationJ{{Op: "update", Table: t.Name, Row: row, Where: byUUID(u)}}
+	}
+	return nil
+}
+
+func (g *txnGen) genPendingClaim() (OperationJ, bool) {
+	pc := g.sh.pending
+	t := g.ts.Spec.Table(pc.table)
+	src, ok := g.sh.rows[pc.table][pc.uuid]
+	if t == nil || !ok {
+		return OperationJ{}, false
+	}
+	row := Row{}
+	for _, c := range t.Cols {
+		if c.RefTable != "" || c.ValRefTable != "" {
+			continue
+		}
+		if g.rng.Intn(3) != 0 {
+			row[c.Name] = nativeToOvsValue(g.genColValue(c))
+		}
+	}
+	for _, ix := range t.Indexes { // fresh values everywhere ...
+		for _, c := range ix {
+			if t.Col(c).Type.Key == "string" {
+				row[c] = VA(AS(fmt.Sprintf("y%d", g.rng.Intn(100000))))
+			} else {
+				row[c] = VA(AI(int64(5000 + g.rng.Intn(100000))))
+			}
+		}
+	}
+	for _, c := range pc.index { // ... except in the index being claimed
+		row[c] = nativeToOvsValue(src[c])
+	}
+	op := OperationJ{Op: "insert", Table: pc.table, Row: row, UUID: g.sh.fresh()}
+	g.inserted[pc.table] = append(g.inserted[pc.table], op.UUID)
+	return op, true
+}
+
+// genWaitDup: a wait on one column, by a value that several rows may hold, expecting that value once or twice
+func (g *txnGen) genWaitDup() (OperationJ, bool) {
+	var cands []TableSpec
+	for _, t := range g.ts.Spec.Tables {
+		if len(g.sh.rows[t.Name]) > 0 {
+			cands = append(cands, t)
+		}
+	}
+	if len(cands) == 0 {
+		return OperationJ{}, false
+	}
+	t := cands[g.rng.Intn(len(cands))]
+	col := []string{"n", "name"}[g.rng.Intn(2)]
+	// the most frequent value of the column
+	freq := map[string]int{}
+	val := map[string]*Value{}
+	for _, u := range g.sh.uuids(t.Name) {
+		v := g.sh.rows[t.Name][u][col]
+		if v != nil {
+			freq[v.Canon()]++
+			val[v.Canon()] = v
+		}
+	}
+	best := ""
+	for k, n := range freq {
+		if best == "" || n > freq[best] || (n == freq[best] && k < best) {
+			best = k
+		}
+	}
+	if best == "" {
+		return OperationJ{}, false
+	}
+	v := nativeToOvsValue(val[best])
+	rows := []Row{{col: v}}
+	if g.rng.Intn(2) == 0 {
+		rows = append(rows, Row{col: v})
+	}
+	zero := 0
+	return OperationJ{Op: "wait", Table: t.Name, Where: []WCondJ{{Col: col, Fn: "==", Val: v}}, Columns: []string{col},
+		Until: []string{"==", "!="}[g.rng.Intn(2)], Rows: rows, Timeout: &zero}, true
 }
